@@ -81,7 +81,9 @@ def read_client_conf():
         parser = ConfigParser(interpolation=None)
         text = '[DEFAULT]\n'
         with open(path) as f:
-            text += f.read()
+            # Every line is a key of its own however it is indented
+            # (ConfigParser reads an indented line as the continuation of the value before it)
+            text += ''.join(line.lstrip(' \t') for line in f)
         parser.read_string(text)
         for key in ret.keys():
             try:
